@@ -86,6 +86,38 @@ def switch_shared_case() -> Spec:
     ], "A", "O")
 
 
+def switch_two_deciders(deep: bool = False) -> Spec:
+    """Two switches with DIFFERENT deciders and different consumers share the case X: the second switch may resolve
+    while X is still in flight for the first one (it must then be woken when X finishes)."""
+    nodes = [
+        Node("A"),
+        Node("S1", (("a", In("A")),), labels=("l1", "l2")),
+        Node("S2", (("a", In("A")),), labels=("l1", "l2")),
+        Node("X", (("a", In("A")),)), Node("Y", (("a", In("A")),)), Node("Z", (("a", In("A")),)),
+        Node("U", (("v", Sw("S1", (("l1", "X"), ("l2", "Y")), "sw1")),)),
+        Node("V", (("v", Sw("S2", (("l1", "X"), ("l2", "Z")), "sw2")),)),
+    ]
+    if deep:
+        nodes += [Node("U2", (("u", In("U")),)), Node("U3", (("u", In("U2")),)),
+                  Node("O", (("u", In("U3")), ("v", In("V"))))]
+    else:
+        nodes += [Node("O", (("u", In("U")), ("v", In("V"))))]
+    return Spec("switch_two_deciders" + ("_deep" if deep else ""), nodes, "A", "O", dur_nodes=("S1", "S2", "X"))
+
+
+def switch_unnamed_same_decider() -> Spec:
+    """Two UNNAMED switch declarations (random synthetic ids) driven by the same decider, with overlapping labels."""
+    return Spec("switch_unnamed_same_decider", [
+        Node("A"),
+        Node("S", (("a", In("A")),), labels=("l1", "l2")),
+        Node("X", (("a", In("A")),)), Node("Y", (("a", In("A")),)),
+        Node("P", (("a", In("A")),)), Node("Q", (("a", In("A")),)),
+        Node("U", (("v", Sw("S", (("l1", "X"), ("l2", "Y")), "?unnamed1")),)),
+        Node("V", (("v", Sw("S", (("l1", "P"), ("l2", "Q")), "?unnamed2")),)),
+        Node("O", (("u", In("U")), ("v", In("V")))),
+    ], "A", "O", dur_nodes=("S", "X"))
+
+
 def switch_case_also_input() -> Spec:
     """A case node that another node also consumes directly."""
     return Spec("switch_case_also_input", [
@@ -209,6 +241,43 @@ def oneof_diamond_shared() -> Spec:
     ], "A", "O", dur_nodes=("F", "S"))
 
 
+def oneof_shared_failing_ancestor() -> Spec:
+    """Both candidates consume the same fallible node H: when H fails, both candidates fail (H's failure must stay
+    visible to the second candidate's sub-pipeline although H is already 'processed')."""
+    return Spec("oneof_shared_failing_ancestor", [
+        Node("A"),
+        Node("H", (("a", In("A")),), kinds=F),
+        Node("C1", (("h", In("H")),)), Node("C2", (("h", In("H")),)),
+        Node("O", (("v", OneOf(("C1", "C2"))),)),
+    ], "A", "O")
+
+
+def oneof_with_switch_unknown() -> Spec:
+    """Switch inside a one-of candidate whose decider may return a label without a case: the candidate fails,
+    the next one is used."""
+    return Spec("oneof_with_switch_unknown", [
+        Node("A"),
+        Node("S", (("a", In("A")),), labels=("l1", "l2"), unknown_label=True),
+        Node("X", (("a", In("A")),)), Node("Y", (("a", In("A")),)),
+        Node("C1", (("v", Sw("S", (("l1", "X"), ("l2", "Y")), "sw")),)),
+        Node("C2", (("a", In("A")),)),
+        Node("O", (("v", OneOf(("C1", "C2"))),)),
+    ], "A", "O")
+
+
+def oneof_siblings_shared() -> Spec:
+    """First candidate joins a fallible node Fa and a healthy node Sb DIRECTLY; the fallback candidate needs Sb too.
+    Sb must be allowed to finish when Fa fails first."""
+    return Spec("oneof_siblings_shared", [
+        Node("A"),
+        Node("Fa", (("a", In("A")),), kinds=F),
+        Node("Sb", (("a", In("A")),)),
+        Node("C1", (("x", In("Fa")), ("y", In("Sb")))),
+        Node("C2", (("y", In("Sb")),)),
+        Node("O", (("v", OneOf(("C1", "C2"))),)),
+    ], "A", "O", dur_nodes=("Fa", "Sb"))
+
+
 def oneof_shared_inflight() -> Spec:
     """A (slow, healthy) node Sh is needed by the first candidate's sub-pipeline AND by the main pipeline; the
     candidate fails at an intermediate node (Fl -> Mid -> C1) while Sh may still be in flight."""
@@ -306,6 +375,26 @@ def rec_side_input(max_iter: int = 1) -> Spec:
         Node("D", (("m", In("M")),), recurrent=True, want_max=max_iter + 1, use_default=True),
         Node("O", (("d", Rec("S", "D", max_iter)),)),
     ], "A", "O")
+
+
+def rec_retry_inside(max_iter: int = 2) -> Spec:
+    """A retrying node (attempts = 2) inside the recurrent subgraph: every iteration gets the full number of attempts."""
+    return Spec("rec_retry_inside", [
+        Node("S", takes_ad=True),
+        Node("R", (("s", In("S")),), kinds=(OK, E1), kind_slots=6, attempts=2, delay=1),
+        Node("D", (("r", In("R")),), recurrent=True, want_max=max_iter, use_default=True),
+        Node("O", (("d", Rec("S", "D", max_iter)),)),
+    ], "S", "O", dur_nodes=("R",))
+
+
+def rec_none_data(max_iter: int = 2) -> Spec:
+    """The destination may pass None as the data of any iteration (also after a non-None one)."""
+    return Spec("rec_none_data", [
+        Node("S", takes_ad=True),
+        Node("M", (("s", In("S")),)),
+        Node("D", (("m", In("M")),), recurrent=True, want_max=max_iter, use_default=True, rec_none=True),
+        Node("O", (("d", Rec("S", "D", max_iter)),)),
+    ], "S", "O", dur_nodes=("M",))
 
 
 def rec_outside_reader(max_iter: int = 1) -> Spec:
@@ -417,6 +506,7 @@ TEMPLATES: Dict[str, Callable[..., Spec]] = {f.__name__: f for f in [
     chain, rhombus, fan, mixed_modes, switch_basic, switch_deep, switch_nested, switch_shared_case,
     switch_case_also_input, oneof_basic, oneof_depth, oneof_three, oneof_nested, oneof_sibling,
     oneof_chained, oneof_with_switch, oneof_with_switch_deep, oneof_shared_dep, oneof_diamond,
-    oneof_shared_inflight, oneof_diamond_shared, oneof_reached_twice, oneof_reached_via_nested, retry_attempts_zero, rec_simple, rec_inner_start, rec_outside_reader,
+    oneof_shared_inflight, oneof_shared_failing_ancestor, oneof_with_switch_unknown, oneof_siblings_shared,
+    switch_two_deciders, switch_unnamed_same_decider, rec_retry_inside, rec_none_data, oneof_diamond_shared, oneof_reached_twice, oneof_reached_via_nested, retry_attempts_zero, rec_simple, rec_inner_start, rec_outside_reader,
     rec_two_scopes, rec_outside_reader_slow, rec_side_input, rec_with_switch, rec_with_oneof, rec_in_oneof, rec_nested, retry_sibling, retry_chain,
 ]}
